@@ -46,6 +46,9 @@ def run(chk):
     c05.r05_adjacent(chk, rule="R01-adjacent")
     # a line offset taken from the wrong token is written as a different number of line breaks, which the next load measures again
     c05.r05_token(chk, rule="R01-token")
+    # what the writer prints must be read back as the same tokens: the scanner's branch precedence and character classes
+    from . import c16, mir
+    c16.r16_dispatch(chk, mir.prog(), rule="R01-dispatch")
     writertab.compare(chk, "R01-writer", floor=48)
     writertab.compare_ifdata(chk, "R01-ifdata-writer", floor=22)
     r01_eq_ifdata(chk)
